@@ -78,7 +78,7 @@ var clauseKw = map[string]bool{"requires": true, "ensures": true, "modifies": tr
 	"unreachable": true, "props": true, "inline": true, "trusted": true, "ensures_on_panic": true, "publishes": true, "assert": true,
 	"invariant": true, "guarded_by": true, "holds": true, "reads": true, "atomic": true, "immutable": true, "apply": true, "induct": true, "inlines": true, "pool": true, "contains_panics": true, "rely": true, "dead_loop": true, "callee_frame": true, "decreases": true}
 
-var labelRe = regexp.MustCompile(`^\[([A-Za-z0-9_.:\-]+)\]\s*`)
+var labelRe = regexp.MustCompile(`^\[([A-Za-z0-9_.:@\-]+)\]\s*`)
 
 func newContracts() *Contracts {
 	return &Contracts{Preds: map[string]*CPred{}, Funcs: map[string]*FuncContract{}, Types: map[string]*TypeDecl{}, Ifaces: map[string]*FuncContract{}, Ghosts: map[string]*GhostDecl{}, Source: map[string]string{}}
